@@ -191,6 +191,18 @@ pub fn run(ctx: &Ctx) -> i32 {
         std::fs::write(&unreadable, b"x").expect("temp");
         let _ = std::fs::set_permissions(&unreadable, std::os::unix::fs::PermissionsExt::from_mode(0o000));
         cases.push(("a file with mode 000".into(), unreadable));
+        // names that are not valid UTF-8: readable, missing, a directory
+        {
+            use std::os::unix::ffi::OsStrExt;
+            let bad = std::ffi::OsStr::from_bytes(b"na\xefve-\xff.bin");
+            let readable = dir.join(bad);
+            std::fs::write(&readable, b"hello").expect("temp");
+            cases.push(("a readable file whose name is not valid UTF-8".into(), readable));
+            cases.push(("a missing file whose name is not valid UTF-8".into(), dir.join(std::ffi::OsStr::from_bytes(b"missing-\xfe"))));
+            let d = dir.join(std::ffi::OsStr::from_bytes(b"dir-\xfd"));
+            let _ = std::fs::create_dir_all(&d);
+            cases.push(("a directory whose name is not valid UTF-8".into(), d));
+        }
         for k in [KERNEL_SOURCE, "/proc/self/status", "/dev/null", "/proc/self/exe"] {
             if std::path::Path::new(k).exists() {
                 cases.push((format!("special file {}", k), k.into()));
@@ -220,7 +232,7 @@ pub fn run(ctx: &Ctx) -> i32 {
             }
         }
     }
-    let s1d = SubReport::new("sources", "A", "with_file + build on source paths of every kind: regular files whose modification time is 1901, −366 d, −2 s … 2^33 s, year 9999 (× whole / half second), a directory, a missing path, an empty path, a dangling and a self-referential symbolic link, a file with mode 000, kernel-backed files, /dev/null; oracle: Ok or Err, never a panic. non-trivial = accepted", a4);
+    let s1d = SubReport::new("sources", "A", "with_file + build on source paths of every kind: regular files whose modification time is 1901, −366 d, −2 s … 2^33 s, year 9999 (× whole / half second), a directory, a missing path, an empty path, a dangling and a self-referential symbolic link, a file with mode 000, readable / missing / directory names that are not valid UTF-8, kernel-backed files, /dev/null; oracle: Ok or Err, never a panic. non-trivial = accepted", a4);
 
     // ---- link targets of symbolic-link entries: any text, at links of several depths
     let ltok = ["/", "..", ".", "a"];
@@ -357,6 +369,37 @@ pub fn run(ctx: &Ctx) -> i32 {
         }
     }));
     let s4 = SubReport::new("metadata", "A", "11 hostile strings (empty, NUL, embedded NUL, 70 bytes, 40 two-byte characters, newline, '-', ':') through each required field, all optional scalar setters, scriptlet / dependency / changelog / owner / symlink setters, and 8 mode integers (fifo, out of 16 bits, negative, i32::MAX) through FileOptions::mode; oracle: no panic", d);
+    // ---- file modes given as values with public fields: anything can be put into `permissions`
+    let mut a6 = Acc::new();
+    {
+        use rpm::FileMode;
+        let mut vals: Vec<(String, FileMode)> = vec![];
+        for p in [0u16, 0o644, 0o7777, 0o10000, 0o100644, 0o120777, 0o170000, 0xffff] {
+            vals.push((format!("Regular {{ permissions: {:#o} }}", p), FileMode::Regular { permissions: p }));
+            vals.push((format!("Dir {{ permissions: {:#o} }}", p), FileMode::Dir { permissions: p }));
+            vals.push((format!("SymbolicLink {{ permissions: {:#o} }}", p), FileMode::SymbolicLink { permissions: p }));
+        }
+        for x in [0i32, -1, 0o644, 65_536, i32::MIN, i32::MAX] {
+            vals.push((format!("Invalid {{ raw_mode: {} }}", x), FileMode::Invalid { raw_mode: x, reason: "given by the caller" }));
+        }
+        for (i, (what, m)) in vals.iter().enumerate() {
+            a6.evals += 1;
+            let case = json!({"kind": "mode-value", "mode": what});
+            let r = catch(|| {
+                let _ = (m.raw_mode(), m.permissions(), m.file_type());
+                try_build(&src, Ok(FileOptions::new("/f").mode(*m)), none)
+            });
+            match r {
+                Err(p) => a6.viol(panic_violation("mode-values", &p, case).sig("arg", "mode").rank(i as u64)),
+                Ok(Err(k)) => a6.count(&format!("rejected: {}", k)),
+                Ok(Ok(_)) => {
+                    a6.nontrivial += 1;
+                    a6.count("accepted");
+                }
+            }
+        }
+    }
+    let s5 = SubReport::new("mode-values", "A", "FileMode values written with their public fields — Regular / Dir / SymbolicLink with `permissions` ∈ {0, 0644, 07777, 010000, 0100644, 0120777, 0170000, 0xFFFF} (type bits inside the permission field) and Invalid with raw_mode ∈ {0, −1, 0644, 65536, i32::MIN, i32::MAX}: accessors, FileOptions::mode, with_file, build; oracle: Ok or Err, never a panic. non-trivial = accepted", a6);
     for s in [&s1, &s1b, &s2, &s3, &s4] {
         if s.acc.nontrivial == 0 {
             crate::ctx::machinery(&format!("sub-check {} accepted nothing: vacuous", s.name));
@@ -364,7 +407,7 @@ pub fn run(ctx: &Ctx) -> i32 {
     }
     ctx.finish(
         "exploration",
-        vec![s1, s1b, s1c, s1d, s1e, s2, s3, s4],
+        vec![s1, s1b, s1c, s1d, s1e, s2, s3, s4, s5],
         &[
             "which in-between destinations (e.g. '/a/.', '/../a') are accepted is not specified; they must only not panic and, if accepted, give a usable package",
             "timestamp arguments of non-integer types (chrono dates before 1970) are outside the statement's 'strings and numbers'",
